@@ -12,6 +12,7 @@ import (
 	"strconv"
 	"strings"
 	"sync"
+	"sync/atomic"
 	"testing"
 
 	golog "github.com/ipfs/go-log/v2"
@@ -58,6 +59,7 @@ type c11GSim struct {
 	helpers   []uint64 // helper registrations not yet attributed to an announcement
 	obs       []c11GObs
 	inconcl   string
+	polls     atomic.Int64
 }
 
 // calledFromLoop reports whether the current goroutine is inside the start()
@@ -99,7 +101,14 @@ func (s *c11GSim) waitForBlock(ctx context.Context, block uint64) error {
 	return nil
 }
 
-func (s *c11GSim) currentBlock() (uint64, error) { return s.bc.Height(), nil }
+// currentBlock: a loop that keeps polling the chain without ever waiting for a
+// block (a spinning loop) still sees time pass: every 256th poll mines a block.
+func (s *c11GSim) currentBlock() (uint64, error) {
+	if s.polls.Add(1)%256 == 0 {
+		s.bc.Advance(1)
+	}
+	return s.bc.Height(), nil
+}
 
 // recording broadcast channel; Send runs on the loop goroutine (the announcer
 // sends right after it registered its receiver).
